@@ -182,6 +182,8 @@ class Harness(object):
             orphaned_threshold_reached = False
             is_control_connection = False
             _product_type = None
+            signaled_error = False
+            last_error = None
 
             def __init__(self, hid, control):
                 self.hid = hid
@@ -213,7 +215,8 @@ class Harness(object):
                         raise cassandra.AuthenticationFailed('scripted auth failure')
                     return cls(hid, control)
                 H.attempts.append((hid, 'control' if control else 'data', o, H.removed[hid]))
-                H.attempt_after_shutdown.append(bool(H.cluster.is_shutdown))      # did this attempt START after Cluster.shutdown?
+                # did this attempt START after Cluster.shutdown (or, for a session's connection, after Session.shutdown)?
+                H.attempt_after_shutdown.append(bool(H.cluster.is_shutdown or (not control and any(x.is_shutdown for x in H.sessions))))
                 if H.in_recon:
                     H.log.append(('A', 'attempt', hid))
                 if o == 'fail':
@@ -263,7 +266,9 @@ class Harness(object):
 
             # control-connection protocol (C45): outside the property, answers are canned
             def register_watchers(self, *a, **k):
-                pass
+                if H.after_handshake is not None:      # C45: something happens after _try_connect's own shutdown check
+                    cb, H.after_handshake = H.after_handshake, None
+                    cb()
 
             def wait_for_responses(self, *msgs, **kwargs):
                 return [(True, None) for _ in msgs]
@@ -276,6 +281,7 @@ class Harness(object):
 
         self.FakeConn = FakeConn
         self.after_connect = None
+        self.after_handshake = None
         self.attempt_after_shutdown = []
         self.probes = []            # in-flight split reconnection attempts
         self.probe_by_thread = {}
